@@ -138,7 +138,7 @@ CLAIMED.update({
  "C08": {
   "engine": "extract-walker+conch",
   "technique": "Coq: walker/consumer protocol and stream/writer lock protocol as transition systems, progress + strictly decreasing measure for every n, k and interleaving; model inputs (walker sites, graph-write sites, locks held) regenerated from the Go source by an AST translator and the discipline re-proved on every run; dynamic cancellation sweep with goroutine profile on the real ledger",
-  "text": "C08_tree_discipline (over the regenerated site table: every consumer of the graph walker drains it on every exit, never uses the signal channel, checks its error, walks under the ledger lock; every graph write holds the ledger write lock outside any walk) => C08_no_walk_wedges: for every site, every history size n, every cancellation/cut/error point k and every interleaving the walk ends with the graph read lock released and the consumer returned (progress + measure); C08_stream_never_deadlocks: walker + nested graph reads + any number of writers, any interleaving, never deadlock and terminate. The strategies of the code before the fixes are refuted in the model (lock leak, send on closed channel, recursive-read-lock deadlock). The harness cancels every operation after k = 0..n+2 polls, truncates (also cancelled), streams to slow and vanishing consumers under concurrent proposals, and probes the node + goroutine profile after each scenario.",
+  "text": "C08_no_lock_left_held (regenerated table of function exits on which a lock taken without a deferred unlock may still be held: empty); C08_tree_discipline (over the regenerated site table: every consumer of the graph walker drains it on every exit, never uses the signal channel, checks its error, walks under the ledger lock; every graph write holds the ledger write lock outside any walk) => C08_no_walk_wedges: for every site, every history size n, every cancellation/cut/error point k and every interleaving the walk ends with the graph read lock released and the consumer returned (progress + measure); C08_stream_never_deadlocks: walker + nested graph reads + any number of writers, any interleaving, never deadlock and terminate. The strategies of the code before the fixes are refuted in the model (lock leak, send on closed channel, recursive-read-lock deadlock). The harness cancels every operation after k = 0..n+2 polls, truncates (also cancelled), streams to slow and vanishing consumers under concurrent proposals, and probes the node + goroutine profile after each scenario.",
   "note": "The walker itself (heimdalr/dag v1.3.1) and sync.RWMutex writer preference are modelled by hand, not translated. 'Every later operation completes' is shown for the lock/channel protocol; termination of badger calls and signature checks is assumed. Lock facts come from a syntactic analysis (top-of-function Lock/defer Unlock; inherited by unexported callees).", "design_ref": "6 C08",
  },
 })
